@@ -80,6 +80,13 @@ theorem compact_parse_serialize (key : Bytes) (items : List Bytes) (fb : Bytes) 
     ∃ cf, CompactFilter.parse false key fb = some cf ∧ cf.serialize = some fb :=
   Filters.compact_parse_serialize key items fb h
 
+/-- … hence CompactFilter.hash of a parsed filter is the hash256 of the received bytes (CFilterMessage.hash) -/
+theorem compact_filter_hash (hash256 : Bytes → Bytes) (key : Bytes) (items : List Bytes) (fb : Bytes)
+    (h : encodeGcs key items = some fb) :
+    ∃ cf, CompactFilter.parse false key fb = some cf ∧ cf.hash hash256 = some (cfilterHash hash256 fb) := by
+  obtain ⟨cf, h1, h2⟩ := Filters.compact_parse_serialize key items fb h
+  exact ⟨cf, h1, by simp [CompactFilter.hash, h2, cfilterHash]⟩
+
 /-- the same for any received filter that encodes a non-decreasing list: N is the transmitted count -/
 theorem compact_parse_received (key : Bytes) (xs : List Nat) (hs : xs.Pairwise (· ≤ ·)) (fb : Bytes)
     (h : serializeGcs xs = some fb) :
